@@ -1,6 +1,9 @@
 // Harness for C16: drives the real ociunify (ReadConcurrent policy) over two gated fake
 // members.  A schedule is a list of (event, wait): start the call, open a member's gate with
-// its answer, cancel the caller's context, close the returned reader.  After an event with
+// its answer, cancel the caller's context, use the returned reader (read part of it, read it
+// to the end, ask for its descriptor), close the returned reader.  A member is the fake
+// registry itself or something built around it (an inner ociunify registry of either read
+// policy, a pass-through wrapper, a reader with more methods than BlobReader).  After an event with
 // wait set the harness lets everything run until every goroutine is blocked or gone (decided
 // from the goroutine profile, not by sleeping) and records a snapshot: the call's result, per
 // member whether its call started / returned, its context state when it returned and now, the
@@ -21,6 +24,7 @@ import (
 	"runtime"
 	"strings"
 	"sync"
+	"sync/atomic"
 	"time"
 
 	"cuelabs.dev/go/oci/ociregistry"
@@ -31,9 +35,10 @@ import (
 // ---------------------------------------------------------------- schedule (the input)
 
 type item struct {
-	Ev   string `json:"ev"`            // start | ret | cancel | close
+	Ev   string `json:"ev"`            // start | ret | cancel | close | use
 	M    int    `json:"m,omitempty"`   // ret: member
 	Ans  string `json:"ans,omitempty"` // ret: succ | fail
+	Use  string `json:"use,omitempty"` // use: partial | drain | desc
 	Wait bool   `json:"wait"`
 }
 
@@ -42,9 +47,66 @@ type input struct {
 	K0    string `json:"k0"`    // gated | oncancel-succ | oncancel-fail
 	K1    string `json:"k1"`
 	Sched []item `json:"sched"`
+	// S0, S1: what the member is made of (the model's prediction does not depend on it):
+	// "" (the fake registry itself) | rich | seq-l | seq-r | wrap-seq-l | wrap-seq-r |
+	// wrap-conc-l | wrap-conc-r - see shapes below.
+	S0 string `json:"s0,omitempty"`
+	S1 string `json:"s1,omitempty"`
 	// CloseErr makes every member reader's Close return an error (the property does not
 	// depend on what Close returns; the model's prediction is the same).
 	CloseErr bool `json:"close_err,omitempty"`
+	// ReadErr makes every member reader's Read fail (not with io.EOF) half way through the
+	// content (the same holds for what Read returns).
+	ReadErr bool `json:"read_err,omitempty"`
+}
+
+// shapes of a member.  rich: the fake hands out a reader that also implements io.WriterTo,
+// io.Seeker and io.ReaderAt.  seq-*/conc-*: the member is ociunify.New(fake, dud) (-l) or
+// ociunify.New(dud, fake) (-r) with the sequential / concurrent read policy, dud being a
+// registry that fails every read at once with the member's error: unify(unify(a, b), c).
+// wrap-: behind a wrapper that passes every call through unchanged (and hides the type); the
+// context observed for the member is then the one the wrapper was called with.  conc is only
+// played behind the wrapper (the fake inside sees a context derived by the inner unifier) and
+// only where an inner concurrent unifier behaves as a gated member: see concFits.
+var shapes = []string{"", "rich", "seq-l", "seq-r", "wrap-seq-l", "wrap-seq-r", "wrap-conc-l", "wrap-conc-r"}
+var uses = []string{"partial", "drain", "desc"}
+
+func isConc(shape string) bool { return strings.HasPrefix(shape, "wrap-conc") }
+
+// concFits: an inner concurrent unifier returns the context error as soon as its context is
+// cancelled, its fake still waiting - the model has no such member kind.  It is an ordinary
+// gated member in schedules where the caller does not cancel before a quiet moment at which
+// the call has been made and the member's gate has been opened.
+func concFits(m int, kind string, sched []item) bool {
+	if kind != "gated" {
+		return false
+	}
+	started, answered := false, false
+	for _, it := range sched {
+		switch {
+		case it.Ev == "cancel":
+			return false
+		case it.Ev == "start":
+			started = true
+		case it.Ev == "ret" && it.M == m:
+			answered = true
+		}
+		if started && answered && it.Wait {
+			return true
+		}
+	}
+	return true
+}
+
+// fit replaces a concurrent inner unifier by a sequential one where it would not be a gated member.
+func fit(in input) input {
+	if isConc(in.S0) && !concFits(0, in.K0, in.Sched) {
+		in.S0 = strings.Replace(in.S0, "conc", "seq", 1)
+	}
+	if isConc(in.S1) && !concFits(1, in.K1, in.Sched) {
+		in.S1 = strings.Replace(in.S1, "conc", "seq", 1)
+	}
+	return in
 }
 
 var entries = []string{"GetBlob", "GetBlobRange", "GetManifest", "ResolveBlob", "ResolveManifest"}
@@ -60,12 +122,36 @@ func memberDigest(i int) ociregistry.Digest {
 	return ociregistry.Digest("sha256:" + strings.Repeat(fmt.Sprint(i), 64))
 }
 
+var errRead = errors.New("reading the member's content fails")
+
+func memberContent(i int) string {
+	return fmt.Sprintf("content of member %d, long enough to be read in several pieces", i)
+}
+
 type fakeReader struct {
-	io.Reader
+	src    *bytes.Reader
 	desc   ociregistry.Descriptor
 	mu     sync.Mutex
 	closes int
-	err    error
+	err    error // returned by Close
+	failAt int   // Read fails with errRead once this many bytes have been delivered (-1: never)
+	served int
+}
+
+func (r *fakeReader) Read(buf []byte) (int, error) {
+	r.mu.Lock()
+	defer r.mu.Unlock()
+	if r.failAt >= 0 {
+		if r.served >= r.failAt {
+			return 0, errRead
+		}
+		if len(buf) > r.failAt-r.served {
+			buf = buf[:r.failAt-r.served]
+		}
+	}
+	n, err := r.src.Read(buf)
+	r.served += n
+	return n, err
 }
 
 func (r *fakeReader) Close() error {
@@ -75,6 +161,23 @@ func (r *fakeReader) Close() error {
 	return r.err
 }
 func (r *fakeReader) Descriptor() ociregistry.Descriptor { return r.desc }
+
+// richReader is a member reader with more methods than ociregistry.BlobReader asks for.
+type richReader struct{ *fakeReader }
+
+func (r richReader) WriteTo(w io.Writer) (int64, error) {
+	return io.Copy(w, struct{ io.Reader }{r.fakeReader})
+}
+func (r richReader) Seek(off int64, whence int) (int64, error) {
+	r.mu.Lock()
+	defer r.mu.Unlock()
+	return r.src.Seek(off, whence)
+}
+func (r richReader) ReadAt(buf []byte, off int64) (int, error) {
+	r.mu.Lock()
+	defer r.mu.Unlock()
+	return r.src.ReadAt(buf, off)
+}
 
 type member struct {
 	idx      int
@@ -92,6 +195,15 @@ type member struct {
 	rd        *fakeReader
 	calls     int
 	closeErr  error // returned by Close of the readers this member hands out
+	readErr   bool  // the readers this member hands out fail half way through
+	rich      bool  // ... and are richReaders
+
+	// filled in by the pass-through wrapper, when there is one
+	wrapped    bool
+	wStarted   bool
+	wReturned  bool
+	wCtx       context.Context
+	wDeadAtRet bool
 }
 
 // call is where a member call waits; its name is looked for in the goroutine profile.
@@ -121,11 +233,17 @@ func (m *member) finish(ctx context.Context, ans bool, rd *fakeReader) {
 
 func (m *member) reader(ctx context.Context) (ociregistry.BlobReader, error) {
 	if m.call(ctx) {
-		content := fmt.Sprintf("content of member %d", m.idx)
-		rd := &fakeReader{Reader: bytes.NewReader([]byte(content)),
+		content := memberContent(m.idx)
+		rd := &fakeReader{src: bytes.NewReader([]byte(content)),
 			desc: ociregistry.Descriptor{MediaType: "application/octet-stream", Digest: memberDigest(m.idx), Size: int64(len(content))},
-			err:  m.closeErr}
+			err:  m.closeErr, failAt: -1}
+		if m.readErr {
+			rd.failAt = len(content) / 2
+		}
 		m.finish(ctx, true, rd)
+		if m.rich {
+			return richReader{rd}, nil
+		}
 		return rd, nil
 	}
 	m.finish(ctx, false, nil)
@@ -161,6 +279,107 @@ func (m *member) registry() ociregistry.Interface {
 	}
 }
 
+// dud is a registry that fails every read at once, with member i's error.
+func dud(i int) ociregistry.Interface {
+	rd := func() (ociregistry.BlobReader, error) { return nil, memberErr[i] }
+	ds := func() (ociregistry.Descriptor, error) { return ociregistry.Descriptor{}, memberErr[i] }
+	return &ociregistry.Funcs{
+		GetBlob_: func(ctx context.Context, repo string, digest ociregistry.Digest) (ociregistry.BlobReader, error) {
+			return rd()
+		},
+		GetBlobRange_: func(ctx context.Context, repo string, digest ociregistry.Digest, o0, o1 int64) (ociregistry.BlobReader, error) {
+			return rd()
+		},
+		GetManifest_: func(ctx context.Context, repo string, digest ociregistry.Digest) (ociregistry.BlobReader, error) {
+			return rd()
+		},
+		ResolveBlob_: func(ctx context.Context, repo string, digest ociregistry.Digest) (ociregistry.Descriptor, error) {
+			return ds()
+		},
+		ResolveManifest_: func(ctx context.Context, repo string, digest ociregistry.Digest) (ociregistry.Descriptor, error) {
+			return ds()
+		},
+	}
+}
+
+// wrapReg passes every call through to the registry inside it, unchanged, noting for the
+// five read entry points the context it was called with and the moment the call came back.
+type wrapReg struct {
+	ociregistry.Interface
+	m *member
+}
+
+func (w *wrapReg) enter(ctx context.Context) {
+	w.m.mu.Lock()
+	w.m.wStarted = true
+	w.m.wCtx = ctx
+	w.m.mu.Unlock()
+}
+
+func (w *wrapReg) leave(ctx context.Context) {
+	w.m.mu.Lock()
+	w.m.wReturned = true
+	w.m.wDeadAtRet = ctx.Err() != nil
+	w.m.mu.Unlock()
+}
+
+func (w *wrapReg) GetBlob(ctx context.Context, repo string, digest ociregistry.Digest) (ociregistry.BlobReader, error) {
+	w.enter(ctx)
+	defer w.leave(ctx)
+	return w.Interface.GetBlob(ctx, repo, digest)
+}
+
+func (w *wrapReg) GetBlobRange(ctx context.Context, repo string, digest ociregistry.Digest, o0, o1 int64) (ociregistry.BlobReader, error) {
+	w.enter(ctx)
+	defer w.leave(ctx)
+	return w.Interface.GetBlobRange(ctx, repo, digest, o0, o1)
+}
+
+func (w *wrapReg) GetManifest(ctx context.Context, repo string, digest ociregistry.Digest) (ociregistry.BlobReader, error) {
+	w.enter(ctx)
+	defer w.leave(ctx)
+	return w.Interface.GetManifest(ctx, repo, digest)
+}
+
+func (w *wrapReg) ResolveBlob(ctx context.Context, repo string, digest ociregistry.Digest) (ociregistry.Descriptor, error) {
+	w.enter(ctx)
+	defer w.leave(ctx)
+	return w.Interface.ResolveBlob(ctx, repo, digest)
+}
+
+func (w *wrapReg) ResolveManifest(ctx context.Context, repo string, digest ociregistry.Digest) (ociregistry.Descriptor, error) {
+	w.enter(ctx)
+	defer w.leave(ctx)
+	return w.Interface.ResolveManifest(ctx, repo, digest)
+}
+
+// build makes the member's registry according to its shape.
+func (m *member) build(shape string) ociregistry.Interface {
+	leaf := m.registry()
+	switch shape {
+	case "":
+		return leaf
+	case "rich":
+		m.rich = true
+		return leaf
+	}
+	policy := ociunify.ReadSequential
+	if strings.Contains(shape, "conc") {
+		policy = ociunify.ReadConcurrent
+	}
+	var inner ociregistry.Interface
+	if strings.HasSuffix(shape, "-l") {
+		inner = ociunify.New(leaf, dud(m.idx), &ociunify.Options{ReadPolicy: policy})
+	} else {
+		inner = ociunify.New(dud(m.idx), leaf, &ociunify.Options{ReadPolicy: policy})
+	}
+	if strings.HasPrefix(shape, "wrap-") {
+		m.wrapped = true
+		return &wrapReg{Interface: inner, m: m}
+	}
+	return inner
+}
+
 func newMember(i int, kind string) *member {
 	m := &member{idx: i, gate: make(chan bool, 1)}
 	switch kind {
@@ -184,9 +403,27 @@ var waitingStates = map[string]bool{
 }
 
 type gor struct {
-	id       string
-	state    string
-	inMember bool
+	id      string
+	state   string
+	creator string // id of the goroutine that started it ("" for the main goroutine)
+	inLeaf  bool   // inside the fake registry's call
+	inWrap  bool   // inside a pass-through wrapper
+}
+
+var creatorRe = regexp.MustCompile(`(?m)^created by .* in goroutine (\d+)$`)
+
+// myGID is the id of the calling goroutine.  It is called from goroutines of the case under
+// observation, so it must not touch anything the harness goroutine locks while it reads the
+// profile (regexp and fmt keep pools behind mutexes): a goroutine parked on such a lock for
+// a moment would pass for a blocked one.
+func myGID() string {
+	var buf [64]byte
+	n := runtime.Stack(buf[:], false)
+	s := strings.TrimPrefix(string(buf[:n]), "goroutine ")
+	if i := strings.IndexByte(s, ' '); i > 0 {
+		return s[:i]
+	}
+	return "?"
 }
 
 var stackBuf = make([]byte, 1<<20)
@@ -202,7 +439,12 @@ func profile() []gor {
 				if m == nil {
 					continue
 				}
-				out = append(out, gor{id: m[1], state: m[2], inMember: strings.Contains(blk, "main.(*member).call(")})
+				g := gor{id: m[1], state: m[2], inLeaf: strings.Contains(blk, "main.(*member).call("),
+					inWrap: strings.Contains(blk, "main.(*wrapReg).")}
+				if c := creatorRe.FindStringSubmatch(blk); c != nil {
+					g.creator = c[1]
+				}
+				out = append(out, g)
 			}
 			return out
 		}
@@ -214,6 +456,7 @@ func profile() []gor {
 // the system under test uses timers, so such a moment is stable until the harness acts.
 func settle(limit time.Duration) ([]gor, bool) {
 	deadline := time.Now().Add(limit)
+	var prev []gor
 	for {
 		runtime.Gosched()
 		p := profile()
@@ -224,13 +467,33 @@ func settle(limit time.Duration) ([]gor, bool) {
 				break
 			}
 		}
-		if quiet {
+		// two profiles in a row must show the same goroutines, all blocked: a goroutine that
+		// was parked only for an instant (on a lock inside the runtime or a library that the
+		// harness goroutine happened to hold) has moved on by the second look
+		if quiet && prev != nil && sameGoroutines(prev, p) {
 			return p, true
+		}
+		if quiet {
+			prev = p
+		} else {
+			prev = nil
 		}
 		if time.Now().After(deadline) {
 			return p, false
 		}
 	}
+}
+
+func sameGoroutines(a, b []gor) bool {
+	if len(a) != len(b) {
+		return false
+	}
+	for i := range a {
+		if a[i].id != b[i].id || a[i].state != b[i].state || a[i].inLeaf != b[i].inLeaf || a[i].inWrap != b[i].inWrap {
+			return false
+		}
+	}
+	return true
 }
 
 // ---------------------------------------------------------------- one case
@@ -276,7 +539,9 @@ func runCase(in input) runResult {
 		ms[0].closeErr = errors.New("close of member 0's reader fails")
 		ms[1].closeErr = errors.New("close of member 1's reader fails")
 	}
-	u := ociunify.New(ms[0].registry(), ms[1].registry(), &ociunify.Options{ReadPolicy: ociunify.ReadConcurrent})
+	ms[0].readErr, ms[1].readErr = in.ReadErr, in.ReadErr
+	u := ociunify.New(ms[0].build(in.S0), ms[1].build(in.S1), &ociunify.Options{ReadPolicy: ociunify.ReadConcurrent})
+	harnessGID := myGID()
 	ctx, cancel := context.WithCancel(context.Background())
 	defer cancel()
 
@@ -289,6 +554,13 @@ func runCase(in input) runResult {
 		err                             error
 		panicked                        bool
 		pval                            string
+		callGID                         atomic.Value // string: id of the goroutine running the call
+
+		// use of the returned reader: one operation at a time, each in its own goroutine
+		useMu    sync.Mutex
+		useDone  chan struct{} // of the operation issued last
+		consumed []byte        // what the caller has read so far
+		useBad   string        // the returned reader misbehaved as a reader
 	)
 	isDone := func(c chan struct{}) bool {
 		select {
@@ -301,6 +573,7 @@ func runCase(in input) runResult {
 	blob := isBlob(in.Entry)
 	theCall := func() {
 		defer close(callDone)
+		callGID.Store(myGID())
 		panicked, pval = hx.Recover(func() {
 			dig := ociregistry.Digest("sha256:" + strings.Repeat("a", 64))
 			switch in.Entry {
@@ -323,9 +596,14 @@ func runCase(in input) runResult {
 		if !isDone(callDone) {
 			return "none"
 		}
+		useMu.Lock()
+		bad := useBad
+		useMu.Unlock()
 		switch {
 		case panicked:
 			return "other:panic " + pval
+		case bad != "":
+			return "other:" + bad
 		case err == nil:
 			var d ociregistry.Digest
 			if blob {
@@ -358,12 +636,21 @@ func runCase(in input) runResult {
 	observe := func(after string) snapshot {
 		p, quiet := settle(settleLimit())
 		s := snapshot{After: after, Quiet: quiet, Started: started, Cancelled: cancelled, Closed: isDone(closeDone), Res: result()}
+		cg, _ := callGID.Load().(string)
 		for _, g := range p[1:] {
 			if base[g.id] {
 				continue
 			}
+			// goroutines of the call under test are started by the harness (the call, Close,
+			// Read) or by the call's goroutine (the senders); anything else was started from
+			// inside a member (an inner concurrent unifier's senders) and is that member's
+			// own business as long as it is inside the fake's call
+			own := g.creator == harnessGID || g.creator == cg
+			if !own && g.inLeaf && !g.inWrap {
+				continue
+			}
 			s.Live++
-			if g.inMember {
+			if g.inWrap || (own && g.inLeaf) {
 				s.InMember++
 			}
 		}
@@ -377,7 +664,20 @@ func runCase(in input) runResult {
 			if m.started {
 				x.Dead = m.ctx.Err() != nil
 			}
-			if m.calls > 1 {
+			if m.wrapped {
+				// the context the unifier under test gave to this member is the wrapper's
+				x.Started = m.wStarted
+				if m.wStarted {
+					x.Dead = m.wCtx.Err() != nil
+				}
+				if m.wReturned != m.returned {
+					x.Reader = "wrapper-and-fake-differ"
+				} else if m.wReturned {
+					x.DeadAtRet = m.wDeadAtRet
+				}
+			}
+			if x.Reader != "none" {
+			} else if m.calls > 1 {
 				x.Reader = "called-more-than-once"
 			} else if m.rd != nil {
 				m.rd.mu.Lock()
@@ -403,7 +703,58 @@ func runCase(in input) runResult {
 		ms[i].opened = true
 		ms[i].gate <- ans
 	}
+	useBusy := func() bool { return useDone != nil && !isDone(useDone) }
+	useReader := func(how string) {
+		if closeIssued || !blob || !isDone(callDone) || panicked || err != nil || rd == nil || useBusy() {
+			return
+		}
+		var want string
+		for i := 0; i < 2; i++ {
+			if rd.Descriptor().Digest == memberDigest(i) {
+				want = memberContent(i)
+			}
+		}
+		done := make(chan struct{})
+		useDone = done
+		go func() {
+			defer close(done)
+			var got []byte
+			var rerr error
+			var d ociregistry.Descriptor
+			pn, pv := hx.Recover(func() {
+				switch how {
+				case "partial":
+					buf := make([]byte, 5)
+					var n int
+					n, rerr = io.ReadFull(rd, buf)
+					got = buf[:n]
+				case "drain":
+					got, rerr = io.ReadAll(rd)
+				case "desc":
+					d = rd.Descriptor()
+				}
+			})
+			useMu.Lock()
+			defer useMu.Unlock()
+			consumed = append(consumed, got...)
+			switch {
+			case pn:
+				useBad = "use of the returned reader panics: " + pv
+			case !strings.HasPrefix(want, string(consumed)):
+				useBad = "the returned reader does not deliver the chosen member's content"
+			case how == "drain" && !in.ReadErr && (rerr != nil || string(consumed) != want):
+				useBad = "the returned reader does not deliver all of the chosen member's content"
+			case how == "drain" && in.ReadErr && !errors.Is(rerr, errRead):
+				useBad = "the returned reader hides the member reader's error"
+			case how == "desc" && want != "" && d.Size != int64(len(want)):
+				useBad = "the returned reader's descriptor is not the chosen member's"
+			}
+		}()
+	}
 	closeReader := func() {
+		if useBusy() {
+			return
+		}
 		if closeIssued || !blob || !isDone(callDone) || panicked || err != nil || rd == nil {
 			return
 		}
@@ -431,6 +782,8 @@ func runCase(in input) runResult {
 			}
 		case "close":
 			closeReader()
+		case "use":
+			useReader(it.Use)
 		}
 		if it.Wait {
 			res.snaps = append(res.snaps, observe(evName(it)))
@@ -452,9 +805,24 @@ func runCase(in input) runResult {
 	return res
 }
 
+func shapeClass(sh string) string {
+	switch {
+	case sh == "":
+		return "fake"
+	case sh == "rich":
+		return "rich"
+	case isConc(sh):
+		return "inner-conc"
+	}
+	return "inner-seq"
+}
+
 func evName(it item) string {
 	if it.Ev == "ret" {
 		return fmt.Sprintf("ret%d-%s", it.M, it.Ans)
+	}
+	if it.Ev == "use" {
+		return "use-" + it.Use
 	}
 	return it.Ev
 }
@@ -483,8 +851,24 @@ func coqEv(it item) string {
 		return fmt.Sprintf("ERet M%d %s", it.M, a)
 	case "cancel":
 		return "ECancel"
+	case "use":
+		return "(EUse " + map[string]string{"partial": "UPartial", "drain": "UDrain", "desc": "UDesc"}[it.Use] + ")"
 	}
 	return "EClose"
+}
+
+func coqShape(sh string) string {
+	switch sh {
+	case "":
+		return "ShLeaf"
+	case "rich":
+		return "ShRich"
+	}
+	l := hx.Bool(strings.HasSuffix(sh, "-l"))
+	if isConc(sh) {
+		return "(ShConc " + l + ")"
+	}
+	return "(ShSeq " + hx.Bool(strings.HasPrefix(sh, "wrap-")) + " " + l + ")"
 }
 
 func coqRes(r string) string {
@@ -514,7 +898,7 @@ func coqMsnap(m msnap) string {
 		ret = "(Ret Fail)"
 	}
 	rd := map[string]string{"none": "RdNone", "open": "RdOpen", "closed": "RdClosed", "closed-twice": "RdTwice",
-		"called-more-than-once": "RdTwice"}[m.Reader]
+		"called-more-than-once": "RdTwice", "wrapper-and-fake-differ": "RdTwice"}[m.Reader]
 	return fmt.Sprintf("(mkMsnap %s %s %s %s %s)", hx.Bool(m.Started), ret, hx.Bool(m.DeadAtRet), hx.Bool(m.Dead), rd)
 }
 
@@ -531,8 +915,8 @@ func coqCase(in input, snaps []snapshot) string {
 	for _, s := range snaps {
 		sn = append(sn, coqSnap(s))
 	}
-	return fmt.Sprintf("{| c_entry := %s; c_k0 := %s; c_k1 := %s; c_sched := %s; c_snaps := %s |}",
-		in.Entry, coqKind(in.K0), coqKind(in.K1), hx.List(evs), hx.List(sn))
+	return fmt.Sprintf("{| c_entry := %s; c_k0 := %s; c_k1 := %s; c_sh0 := %s; c_sh1 := %s; c_sched := %s; c_snaps := %s |}",
+		in.Entry, coqKind(in.K0), coqKind(in.K1), coqShape(in.S0), coqShape(in.S1), hx.List(evs), hx.List(sn))
 }
 
 // ---------------------------------------------------------------- generation
@@ -592,13 +976,43 @@ func enumerate(entry string, emit func(input)) {
 	}
 }
 
+// withUses puts a use of the returned reader after every waited-for event that follows the
+// start (the harness skips it while no reader is held); which use rotates.
+func withUses(sched []item, salt int) []item {
+	var out []item
+	started := false
+	for j, it := range sched {
+		out = append(out, it)
+		if it.Ev == "start" {
+			started = true
+		}
+		if started && it.Wait {
+			out = append(out, item{Ev: "use", Use: uses[(j+salt)%len(uses)], Wait: true})
+		}
+	}
+	return out
+}
+
 func main() {
 	cfg := hx.ParseFlags()
 	out := hx.NewOut(cfg, "Obs.C16")
+	out.ShardMax = 300 // burst cases are expensive for the model to predict: more, smaller shards
 	maxLeft, maxNum := 0, 0
 	discarded := 0
+	// Goroutines that a case leaves behind stay in the profile for good, and every later
+	// quiescence test has to read past them: once a few hundred have piled up (each of them is
+	// a violation that the cases recorded so far already show) the harness stops producing
+	// cases instead of crawling to its time limit.
+	leaked, stopped := 0, false
 	add := func(in input, origin string) {
+		if stopped {
+			return
+		}
 		r := runCase(in)
+		leaked += r.leftover
+		if leaked > 300 {
+			stopped = true
+		}
 		for _, s := range r.snaps {
 			if !s.Quiet {
 				// no quiet moment within the limit: the snapshot was taken while a goroutine was
@@ -634,6 +1048,19 @@ func main() {
 			out.Count("entry:" + in.Entry)
 			out.Count("kinds:" + in.K0 + "," + in.K1)
 			out.Count("origin:" + origin)
+			out.Count("shapes:" + shapeClass(in.S0) + "," + shapeClass(in.S1))
+			if in.CloseErr {
+				out.Count("member-readers:close-fails")
+			}
+			if in.ReadErr {
+				out.Count("member-readers:read-fails")
+			}
+			for _, it := range in.Sched {
+				if it.Ev == "use" {
+					out.Count("with-use-of-returned-reader")
+					break
+				}
+			}
 			out.Count("final:" + final)
 			out.Count(fmt.Sprintf("events:%d", len(in.Sched)))
 			for _, s := range r.snaps {
@@ -650,6 +1077,8 @@ func main() {
 			os.Exit(3)
 		}
 		out.Extra["max_goroutines_left_after_cleanup"] = maxLeft
+		out.Extra["goroutines_left_after_cleanup_total"] = leaked
+		out.Extra["stopped_early_because_of_leaked_goroutines"] = stopped
 		out.Extra["max_runtime_NumGoroutine_after_case"] = maxNum
 		if err := out.Flush(); err != nil {
 			panic(err)
@@ -684,15 +1113,38 @@ func main() {
 			add(in, "corpus")
 		}
 	}
-	reps := 2
+	// The enumeration is played several times (Go's select may answer one schedule in several
+	// ways), each time in another setting that the model's prediction does not depend on:
+	//   0: as it is;  1: member readers whose Close fails;  2: the returned reader is used
+	//   (read in part / to the end / asked for its descriptor) after every event, member readers
+	//   whose Read fails on every other schedule;  3 and up: members of other shapes (every
+	//   pair of shapes in turn), with and without the above.
+	reps := 4
 	if cfg.Thorough() {
 		reps = 25
 	}
 	for rep := 0; rep < reps; rep++ {
+		n := 0
 		for _, e := range entries {
 			enumerate(e, func(in input) {
-				in.CloseErr = rep%2 == 1 // every schedule is played with and without a failing Close
-				add(in, "enumerated")
+				n++
+				switch {
+				case rep == 0:
+				case rep == 1:
+					in.CloseErr = true
+				case rep == 2:
+					in.Sched = withUses(in.Sched, n)
+					in.ReadErr = n%2 == 1
+				default:
+					k := (n*37 + (rep-3)*17) % (len(shapes) * len(shapes))
+					in.S0, in.S1 = shapes[k%len(shapes)], shapes[k/len(shapes)]
+					in.CloseErr = (n+rep)%2 == 1
+					if (n/2+rep)%2 == 0 {
+						in.Sched = withUses(in.Sched, n+rep)
+						in.ReadErr = (n/4)%2 == 1
+					}
+				}
+				add(fit(in), "enumerated")
 			})
 		}
 	}
@@ -727,9 +1179,17 @@ func main() {
 			sched = append(sched, it)
 		}
 		sched[len(sched)-1].Wait = true
+		in := input{Entry: entry, K0: k0, K1: k1, CloseErr: rnd.Intn(2) == 0, ReadErr: rnd.Intn(2) == 0}
+		if rnd.Intn(2) == 0 {
+			in.S0 = shapes[rnd.Intn(len(shapes))]
+		}
+		if rnd.Intn(2) == 0 {
+			in.S1 = shapes[rnd.Intn(len(shapes))]
+		}
 		if isBlob(entry) {
-			// Close is only issued at a quiet moment (the harness must know whether a reader
-			// has been returned): after some waited-for event that follows the start
+			// Close and the uses of the returned reader are only issued at a quiet moment (the
+			// harness must know whether a reader has been returned): after some waited-for
+			// event that follows the start
 			seenStart := false
 			var cands []int
 			for j, it := range sched {
@@ -741,12 +1201,28 @@ func main() {
 				}
 			}
 			if len(cands) > 0 {
+				extra := map[int][]item{}
 				j := cands[rnd.Intn(len(cands))]
-				cl := item{Ev: "close", Wait: true}
-				sched = append(sched[:j+1], append([]item{cl}, sched[j+1:]...)...)
+				extra[j] = append(extra[j], item{Ev: "close", Wait: true})
+				for k := rnd.Intn(4); k > 0; k-- {
+					j := cands[rnd.Intn(len(cands))]
+					u := item{Ev: "use", Use: uses[rnd.Intn(len(uses))], Wait: true}
+					if rnd.Intn(2) == 0 {
+						extra[j] = append([]item{u}, extra[j]...)
+					} else {
+						extra[j] = append(extra[j], u)
+					}
+				}
+				var s2 []item
+				for j, it := range sched {
+					s2 = append(s2, it)
+					s2 = append(s2, extra[j]...)
+				}
+				sched = s2
 			}
 		}
-		add(input{Entry: entry, K0: k0, K1: k1, Sched: sched, CloseErr: rnd.Intn(2) == 0}, "burst")
+		in.Sched = sched
+		add(fit(in), "burst")
 	}
 	finish()
 }
